@@ -309,6 +309,7 @@ type Stats struct {
 	T1Time, T2Time                                         float64
 	T2Queries                                              int
 	Steps                                                  int64
+	Merged                                                 int // if-converted diamonds
 }
 
 type pcEntry struct {
@@ -1089,6 +1090,7 @@ func (m *Machine) RunJob(job Job) (res JobResult) {
 	return
 }
 
+var NoIfConversion = os.Getenv("VERIF_NO_IFCONV") != ""
 var lastEI bool
 var lastHarness string
 
